@@ -83,6 +83,32 @@ class RandomPolicy(Policy):
     return 0
 
 
+class TargetedPolicy(Policy):
+  """Random switching with a high probability at lines of selected files/functions (named race windows)."""
+
+  def __init__(self, rng, hot, p_hot=0.5, p_cold=0.02, q=0.3):
+    self.rng = rng
+    self.hot = hot          # callable(frame) -> bool
+    self.p_hot = p_hot
+    self.p_cold = p_cold
+    self.q = q
+    self.hot_points = 0
+
+  def choose(self, sched, decision_no, kind, me, options):
+    r = self.rng.random()
+    if kind == 'line':
+      fr = getattr(sched, 'cur_frame', None)
+      hot = fr is not None and self.hot(fr)
+      if hot:
+        self.hot_points += 1
+      if r < (self.p_hot if hot else self.p_cold):
+        return self.rng.randrange(1, len(options))
+      return 0
+    if r < self.q:
+      return self.rng.randrange(0, len(options))
+    return 0
+
+
 class PCTPolicy(Policy):
   """PCT-style: random thread priorities, d priority-change points at random decisions."""
 
@@ -225,6 +251,7 @@ class Scheduler(object):
       raise Abort()
     if self.on_point:
       self.on_point(self, me, frame)
+    self.cur_frame = frame
     nxt = self._decide(me, 'line')
     if nxt is not me:
       self._transfer(me, nxt)
